@@ -612,6 +612,48 @@ theorem chunking_irrelevant_empty_tail {o : Oracle} {op : Nat} {cs cs' : List By
   subst q3
   exact ⟨q1, q2, g1, v1, v2⟩
 
+/-! ### histories with the same FLUSH points -/
+
+/-- one segment of a history: PROCESS chunks, then one request `(op, c)` -/
+structure Seg where
+  cs : List Bytes
+  op : Nat
+  c : Bytes
+
+/-- two histories with the same FLUSH / FINISH points, cut differently between them: segment `i` of
+the first is `procs cs ++ [(op, c)]`, of the second `procs cs' ++ [(op, c')]` with the same data and the
+same `op`; each segment is driven (any output schedules) from where the previous one ended, and at the
+start of each segment of the first history the side conditions of `chunking_irrelevant` hold -/
+inductive SegRuns (o : Oracle) : List (Seg × Seg) → St → Bytes → St → Bytes → St → Bytes → St → Bytes → Prop
+  | nil (s t : St) (del delt : Bytes) : SegRuns o [] s del s del t delt t delt
+  | cons {g g' : Seg} {rest : List (Seg × Seg)} {s m s' t m' t' : St} {del dm del' delt dm' delt' : Bytes} :
+      g'.op = g.op → g.cs.flatten ++ g.c = g'.cs.flatten ++ g'.c →
+      (g.op = 0 ∨ g.c ≠ [] ∨ NotBoundary (ensureInitialized s) g.cs.flatten) →
+      (g.op = 0 ∨ g'.c ≠ [] ∨ NotBoundary (ensureInitialized s) g'.cs.flatten) →
+      (IsFresh s ∨ Inv s) → VGood (absR (ensureInitialized s) (g.cs.flatten ++ g.c) del) → s.streamState = .processing →
+      DrivenC o (procs g.cs ++ [(g.op, g.c)]) s del m dm →
+      DrivenC o (procs g'.cs ++ [(g.op, g'.c)]) t delt m' dm' →
+      SegRuns o rest m dm s' del' m' dm' t' delt' → SegRuns o ((g, g') :: rest) s del s' del' t delt t' delt'
+
+/-- **chunking_irrelevant_segments**: histories with the same FLUSH / FINISH points whose segments are
+cut differently (under the proviso, segment by segment) produce the same bytes and end in the same
+state up to the ring buffer -/
+theorem chunking_irrelevant_segments {o : Oracle} (gs : List (Seg × Seg)) :
+    ∀ {s s' t t' : St} {del del' delt delt' : Bytes}, SegRuns o gs s del s' del' t delt t' delt' →
+      er (core (ensureInitialized t)) = er (core (ensureInitialized s)) → delt ++ t.pending = del ++ s.pending →
+      er (core (ensureInitialized s')) = er (core (ensureInitialized t')) ∧ del' ++ s'.pending = delt' ++ t'.pending := by
+  induction gs with
+  | nil =>
+    intro s s' t t' del del' delt delt' h hc ho
+    cases h
+    exact ⟨hc.symm, ho.symm⟩
+  | cons g gs ih =>
+    intro s s' t t' del del' delt delt' h hc ho
+    cases h with
+    | cons hop hdata hsafe hsafe' hI hG hproc h1 h2 hr =>
+      obtain ⟨e1, e2, _⟩ := chunking_irrelevant hsafe hsafe' hdata hI hG hproc hc ho h1 h2
+      exact ih hr e1.symm e2.symm
+
 /-! ### the counter-example at a block boundary (model, fresh encoder, quality 2, size hint set) -/
 
 def cxStart : St := (setParameter (setParameter St.new 1 2).1 5 16384).1
